@@ -150,6 +150,13 @@ def plan(tier, seed):
         for first in 'AB':
             jobs.append({'space': 'S9', 'pair': i, 'first': first,
                          'mode': 'full', 'bound': 1, 'weight': 6000})
+    # two threads deciding on ONE parsed tree (one enforcer, one rule)
+    for i in range(len(S9_SHARED)):
+        if tier == 'quick' and i % 2:
+            continue
+        for first in 'AB':
+            jobs.append({'space': 'S9', 'pair': i, 'first': first,
+                         'mode': 'shared', 'bound': 1, 'weight': 6000})
     if tier != 'quick':
         # two preemptions: the parse alone, on the shortest texts
         for i in range(len(S9_TINY)):
@@ -284,10 +291,47 @@ S9_TINY = [('role:a', 'not role:b'), ('@', [['role:b']]),
            ('role:a or role:c', 'role:b and role:b')]
 
 
+# (rule, roles of thread A, roles of thread B): and/or nodes of three members
+# where the deciding member differs between the two callers
+S9_SHARED = [(t, a, b) for t in (
+    'role:a and role:b and role:c', 'role:a or role:b or role:c',
+    '(role:a or role:b or role:c) and not role:d',
+    'not (role:a and role:b and role:c)')
+    for a, b in ((('a', 'b'), ('a', 'b')), (('c',), ('c',)),
+                 (('a', 'b'), ('a', 'b', 'c')), (('c',), ()),
+                 (('b',), ('a', 'c')), (('a', 'b', 'c'), ('a', 'c')))]
+
+
+def run_S9_shared(cx, job):
+    from mc import pairs
+    text, ra, rb = S9_SHARED[job['pair']]
+    roles = {'A': list(ra), 'B': list(rb)}
+    ast = lang.parse(lang.lex(text))
+    expected = {n: lang.evaluate(ast, lambda leaf: leaf[5:] in roles[n])
+                for n in 'AB'}
+
+    def make_bodies():
+        enf = world.bare_enforcer()
+        world.set_rules(enf, {'p': text})
+        if bool(enf.enforce('p', {}, {'roles': roles['A']})) != expected['A']:
+            raise core.HarnessError('S9 sequential outcome disagrees')
+        world.set_rules(enf, {'p': text})        # a tree nobody has walked
+        return {n: (lambda n=n: bool(enf.enforce(
+            'p', {}, {'roles': roles[n]}))) for n in 'AB'}
+    n_ex = pairs.explore(cx.acc, 'S9', 'shared%d' % job['pair'], make_bodies,
+                         expected, job['bound'],
+                         lambda n: 'rule %r roles %r' % (text, roles[n]),
+                         firsts=(job['first'],))
+    cx.acc.add('s9_executions_shared_tree', n_ex)
+    cx.acc.sample('S9', {'rule': text, 'roles': [list(ra), list(rb)]})
+
+
 def run_S9(cx, job):
     from mc import pairs
     if job.get('mode') == 'parse':
         return run_S9_parse(cx, job)
+    if job.get('mode') == 'shared':
+        return run_S9_shared(cx, job)
     ta, tb = (S9_PAIRS + S9_MORE)[job['pair']]
     roles = {'A': ['a', 'c'], 'B': ['b']}
     texts = {'A': ta, 'B': tb}
